@@ -17,7 +17,7 @@ from checks import reqgen as rg
 
 NETS = ['P3', 'TRI', 'P3_lowpmax', 'P3_CL', 'SQ']
 # SQ: square A-B-C-D with the diagonal B-D; requests between the same transceivers that differ only in their include lists
-SQ_NAMES = ['light', 'via_bd', 'via_db', 'via_b_loose', 'via_b', 'bidir', 'blocked']
+SQ_NAMES = ['light', 'via_bd', 'via_db', 'via_b_loose', 'via_b', 'bidir', 'blocked', 'imp_loose', 'imp_strict']
 SIMS = {'default': {}, 'ggn3': {'nli_params': {'method': 'ggn_spectrally_separated', 'computed_number_of_channels': 3},
                                  'raman_params': {'flag': False}}}
 SPECTRUM_REASONS = {'NO_SPECTRUM', 'NOT_ENOUGH_RESERVED_SPECTRUM'}
@@ -83,6 +83,12 @@ def menu():
                                   include=[('roadm B', 'LOOSE')]),
         'via_b': rg.request('via_b', 'trx A', 'trx C', trx_type='Voyager', mode='mode 1', spacing=50e9,
                             include=[('roadm B', 'STRICT')]),
+        # the same impossible include list (the destination's ROADM first) once LOOSE (dropped: shortest route) and once STRICT
+        # (blocked)
+        'imp_loose': rg.request('imp_loose', 'trx A', 'trx C', trx_type='Voyager', mode='mode 1', spacing=50e9,
+                                include=[('roadm C', 'LOOSE'), ('roadm B', 'LOOSE')]),
+        'imp_strict': rg.request('imp_strict', 'trx A', 'trx C', trx_type='Voyager', mode='mode 1', spacing=50e9,
+                                 include=[('roadm C', 'STRICT'), ('roadm B', 'STRICT')]),
         'nomode': rg.request('nomode', 'trx B', 'trx A', trx_type='T_hard', mode=None, spacing=75e9),
         'nospacing': rg.request('nospacing', 'trx C', 'trx B', trx_type='Voyager', mode=None, spacing=30e9),
     }
@@ -271,7 +277,7 @@ def run_api(case):
 
 
 def main(rep, tier, seed):
-    all_names = [n for n in menu() if not n.startswith('via_')]
+    all_names = [n for n in menu() if not n.startswith('via_') and not n.startswith('imp_')]
     cases = []
     for net in NETS:
         names = all_names if net != 'SQ' else SQ_NAMES
@@ -312,7 +318,7 @@ def main(rep, tier, seed):
     rep.cov['bound'] = (f'{len(NETS) - 1} networks x every ordered batch of 1-2 requests from a menu of {len(all_names)} + '
                         f'{"all" if tier == "thorough" else "1/6 of the"} ordered triples (+ sampled quadruples in the thorough tier) + '
                         '16 two-batch histories on one network object + API-built request batches of 2-3; networks include a two-band (C+L) '
-                        'line system; + a 4-site mesh with every ordered batch of 1-3 out of 7 requests of which 5 share their end points and differ in the include list (same nodes in both orders, LOOSE / STRICT); on P3 every ordered pair and history also under ggn_spectrally_separated with 3 computed channels')
+                        'line system; + a 4-site mesh with every ordered batch of 1-3 out of 9 requests of which 7 share their end points and differ in the include list (same nodes in both orders, LOOSE / STRICT); on P3 every ordered pair and history also under ggn_spectrally_separated with 3 computed channels')
     rep.cov['space_size'] = len(cases)
     rep.cov['exhaustive'] = not stats['budget_hit'] and len(results) == len(cases)
     rep.cov['rule'] = ('a case = one batch (or two successive batches) through the real planning() on a freshly designed network; '
